@@ -338,6 +338,12 @@ func tbl(r *Run, focus string) {
 	cfg := &dht.ServerConfig{NoSecurity: !tw.secure}
 	if tw.secure {
 		cfg.PublicIP = local.IP
+		if ch.Chance(1, 3, "cfg.ownid") {
+			// the caller supplies its own node id, one that is not a BEP 42 id for the public
+			// IP: enforcement concerns the contacts' ids and stays on
+			cfg.NodeId = krpc.ID(r.RandID())
+			r.Probe("configured-nonconforming-own-id")
+		}
 	}
 	var starting []dht.Addr
 	cfg.StartingNodes = func() ([]dht.Addr, error) { return starting, nil }
